@@ -2,6 +2,7 @@ import PrysmVerif.Generated.C03
 import PrysmVerif.Lemmas.C03Fourier
 import PrysmVerif.Lemmas.C03Rotation
 import PrysmVerif.Lemmas.C03Czt
+import PrysmVerif.Lemmas.C03Exec
 import PrysmVerif.Lemmas.C05Instance
 import Mathlib.Tactic.NormNum
 /-!
@@ -674,5 +675,19 @@ theorem fft_route_2d_samples_F2 (e : R → V) (he : C01.IsChar e) (nrm : R → V
   exact h1 n N' _ _ l hN (by simp only [Generated.C03.focusDx, Generated.C03.pupilToPsf, Model.C03.focusDx, Model.C03.pupilToPsf]; field_simp)
 
 end fftroute
+
+section driver
+variable {R V : Type} [Field R] [CharZero R] [Field V] [CharZero V]
+open Model.C03
+
+/-- the array the Lean driver prints for an `fs` request (`Model.C03.Exec.fixedTableG`, rows memoised) holds, at every index
+inside it, the value of `Model.C03.fixedSampling` — the function all theorems above speak about -/
+theorem driver_table_is_model (e : R → V) (ofR : R → V) (sqrt : R → R) (m n M N : Nat) (dx z lam dxo shx shy : R)
+    (f : Array (Array V)) (k l : Nat) (hk : k < M) (hl : l < N) :
+    Model.C01.rd2 (Model.C03.Exec.fixedTableG e ofR sqrt m n M N dx z lam dxo shx shy f) k l
+      = fixedSampling e ofR sqrt m n M N dx z lam dxo shx shy (Model.C01.rd2 f) k l :=
+  fixedTableG_eq e ofR sqrt m n M N dx z lam dxo shx shy f k l hk hl
+
+end driver
 
 end C03
